@@ -303,8 +303,12 @@ theorem policy_makes_outcomes_unique (p : DupPolicy) (hk : p ≠ .keep)
 /-! ## end to end: the model of `wh.wh` against the model of `ndl.ndl` -/
 
 /-- **real → binary, end to end** (C08 `wh_r2b_end_to_end` ∘ this file ∘ C01
-    `ndlModel_eq_spec`).  Preconditions: `hper : 2 ≤ events_per_temporary_file`,
-    `hjob : 1 ≤ n_outcomes_per_job` of the `ndl.ndl` call and `hfit` the 32-bit
+    `ndl_call_eq_spec`).  Preconditions: `hne` the event file has at least ONE
+    event — on a file with zero events the real `ndl.ndl` raises `IOError` (it
+    is the CALL `ndlCall` that is compared) while `wh.wh` returns, so the two do
+    NOT agree there; `hcfg : CfgOK` = `2 ≤ events_per_temporary_file < 2³²`,
+    `1 ≤ n_outcomes_per_job`, OpenMP: `n_outcomes + n_outcomes_per_job < 2³²`
+    of the `ndl.ndl` call and `hfit` the 32-bit
     limits of its event files (it raises outside); `hc : 1 ≤ n_outcomes_per_job`
     of the `wh.wh` call; `hp` the duplicate policy accepts the events (else both
     raise `ValueError`); the cues of the events have rows in the table (`hS`,
@@ -314,52 +318,60 @@ theorem policy_makes_outcomes_unique (p : DupPolicy) (hk : p ≠ .keep)
     `ndl.ndl`'s (α = 1, same β₁ β₂ λ) at (o, c); labels at positions that are
     the image of no occurring cue read 0.  Any two chunkings, both `ndl`
     methods. -/
-theorem wh_r2b_onehot_eq_ndl (cfg : NdlCfg) (hper : 2 ≤ cfg.perFile) (hjob : 1 ≤ cfg.perJob) (eta β₁ β₂ lam : R)
+theorem wh_r2b_onehot_eq_ndl (cfg : NdlCfg) (eta β₁ β₂ lam : R)
     (ct : VecTable R) (σ : String → Nat) (chunk : Nat) (hc : 1 ≤ chunk)
-    (es es' : List (Event String String)) (hp : applyPolicyAll cfg.policy es = some es') (hfit : Fits32 es)
+    (es es' : List (Event String String)) (hne : es ≠ [])
+    (hcfg : CfgOK cfg (countNames es).2.length)
+    (hp : applyPolicyAll cfg.policy es = some es') (hfit : Fits32 es)
     (hoh : OneHotTable ct σ) (S : String → Prop) (hSn : ∀ c, S c → c ∈ ct.names)
     (hinj : ∀ a b, S a → S b → σ a = σ b → a = b) (hS : ∀ e ∈ es, ∀ c ∈ e.cues, S c) :
     ∃ w wn, whModel .r2b cfg.policy eta β₁ β₂ lam (some ct) none chunk none es = .ok w ∧
-      ndlModel Generated.pyMagic Generated.pyVersion cfg 1 β₁ β₂ lam none es = .ok (wn, es.length) ∧
+      ndlCall Generated.pyMagic Generated.pyVersion cfg 1 β₁ β₂ lam none es = .ok (wn, es.length) ∧
       (∀ o c dl, S c → dl ∈ ct.dims → ct.dims.idxOf dl = σ c → w.get o dl = wn.get o c) ∧
       (∀ o dl, (∀ e ∈ es, ∀ c ∈ e.cues, σ c ≠ ct.dims.idxOf dl) → w.get o dl = 0) :=
-  whModel_r2b_onehot_eq_ndl Generated.pyMagic Generated.pyVersion (by decide) (by decide) cfg hper hjob
-    eta β₁ β₂ lam ct σ chunk hc es es' hp hfit hoh S hSn hinj hS
+  whModel_r2b_onehot_eq_ndl Generated.pyMagic Generated.pyVersion (by decide) (by decide) cfg
+    eta β₁ β₂ lam ct σ chunk hc es es' hne hcfg hp hfit hoh S hSn hinj hS
 
-/-- **binary → real, end to end**: as before with the outcome table; `hu` no
+/-- **binary → real, end to end**: as before (in particular `hne`: at least one
+    event, else `ndl.ndl` raises and `wh.wh` does not) with the outcome table; `hu` no
     outcome repeated within a policy-processed event
     (`policy_makes_outcomes_unique`).  `wh.wh`'s matrix at (label at position
     `τ o`, c) equals `ndl.ndl`'s (α = 1, β₁ = β₂ = η, λ = 1) at (o, c), for every
     `o ∈ T` and EVERY cue name `c`; unused outcome dimensions read 0. -/
-theorem wh_b2r_onehot_eq_ndl (cfg : NdlCfg) (hper : 2 ≤ cfg.perFile) (hjob : 1 ≤ cfg.perJob) (eta β₁ β₂ lam : R)
+theorem wh_b2r_onehot_eq_ndl (cfg : NdlCfg) (eta β₁ β₂ lam : R)
     (ot : VecTable R) (τ : String → Nat) (chunk : Nat) (hc : 1 ≤ chunk)
-    (es es' : List (Event String String)) (hp : applyPolicyAll cfg.policy es = some es') (hfit : Fits32 es)
+    (es es' : List (Event String String)) (hne : es ≠ [])
+    (hcfg : CfgOK cfg (countNames es).2.length)
+    (hp : applyPolicyAll cfg.policy es = some es') (hfit : Fits32 es)
     (hoh : OneHotTable ot τ) (T : String → Prop) (hTn : ∀ o, T o → o ∈ ot.names)
     (hinj : ∀ a b, T a → T b → τ a = τ b → a = b) (hT : ∀ e ∈ es, ∀ o ∈ e.outcomes, T o)
     (hu : ∀ e ∈ es', e.outcomes.Nodup) :
     ∃ w wn, whModel .b2r cfg.policy eta β₁ β₂ lam none (some ot) chunk none es = .ok w ∧
-      ndlModel Generated.pyMagic Generated.pyVersion cfg 1 eta eta 1 none es = .ok (wn, es.length) ∧
+      ndlCall Generated.pyMagic Generated.pyVersion cfg 1 eta eta 1 none es = .ok (wn, es.length) ∧
       (∀ o c dl, T o → dl ∈ ot.dims → ot.dims.idxOf dl = τ o → w.get dl c = wn.get o c) ∧
       (∀ dl c, (∀ e ∈ es, ∀ o ∈ e.outcomes, τ o ≠ ot.dims.idxOf dl) → w.get dl c = 0) :=
-  whModel_b2r_onehot_eq_ndl Generated.pyMagic Generated.pyVersion (by decide) (by decide) cfg hper hjob
-    eta β₁ β₂ lam ot τ chunk hc es es' hp hfit hoh T hTn hinj hT hu
+  whModel_b2r_onehot_eq_ndl Generated.pyMagic Generated.pyVersion (by decide) (by decide) cfg
+    eta β₁ β₂ lam ot τ chunk hc es es' hne hcfg hp hfit hoh T hTn hinj hT hu
 
-/-- **real → real, end to end**: both tables one-hot; `wh.wh`'s matrix at (label
+/-- **real → real, end to end** (`hne`, `hcfg` as in `wh_r2b_onehot_eq_ndl`):
+    both tables one-hot; `wh.wh`'s matrix at (label
     at position `τ o`, label at position `σ c`) equals `ndl.ndl`'s at (o, c). -/
-theorem wh_r2r_onehot_eq_ndl (cfg : NdlCfg) (hper : 2 ≤ cfg.perFile) (hjob : 1 ≤ cfg.perJob) (eta β₁ β₂ lam : R)
+theorem wh_r2r_onehot_eq_ndl (cfg : NdlCfg) (eta β₁ β₂ lam : R)
     (ct ot : VecTable R) (σ τ : String → Nat) (chunk : Nat) (hc : 1 ≤ chunk)
-    (es es' : List (Event String String)) (hp : applyPolicyAll cfg.policy es = some es') (hfit : Fits32 es)
+    (es es' : List (Event String String)) (hne : es ≠ [])
+    (hcfg : CfgOK cfg (countNames es).2.length)
+    (hp : applyPolicyAll cfg.policy es = some es') (hfit : Fits32 es)
     (hohc : OneHotTable ct σ) (hoho : OneHotTable ot τ)
     (S T : String → Prop) (hSn : ∀ c, S c → c ∈ ct.names) (hTn : ∀ o, T o → o ∈ ot.names)
     (hinjc : ∀ a b, S a → S b → σ a = σ b → a = b) (hinjo : ∀ a b, T a → T b → τ a = τ b → a = b)
     (hS : ∀ e ∈ es, ∀ c ∈ e.cues, S c) (hT : ∀ e ∈ es, ∀ o ∈ e.outcomes, T o)
     (hu : ∀ e ∈ es', e.outcomes.Nodup) :
     ∃ w wn, whModel .r2r cfg.policy eta β₁ β₂ lam (some ct) (some ot) chunk none es = .ok w ∧
-      ndlModel Generated.pyMagic Generated.pyVersion cfg 1 eta eta 1 none es = .ok (wn, es.length) ∧
+      ndlCall Generated.pyMagic Generated.pyVersion cfg 1 eta eta 1 none es = .ok (wn, es.length) ∧
       (∀ o c dlo dlc, T o → S c → dlo ∈ ot.dims → ot.dims.idxOf dlo = τ o →
         dlc ∈ ct.dims → ct.dims.idxOf dlc = σ c → w.get dlo dlc = wn.get o c) :=
-  whModel_r2r_onehot_eq_ndl Generated.pyMagic Generated.pyVersion (by decide) (by decide) cfg hper hjob
-    eta β₁ β₂ lam ct ot σ τ chunk hc es es' hp hfit hohc hoho S T hSn hTn hinjc hinjo hS hT hu
+  whModel_r2r_onehot_eq_ndl Generated.pyMagic Generated.pyVersion (by decide) (by decide) cfg
+    eta β₁ β₂ lam ct ot σ τ chunk hc es es' hne hcfg hp hfit hohc hoho S T hSn hTn hinjc hinjo hS hT hu
 
 /-! ## the row order of the vector tables is irrelevant -/
 
@@ -456,13 +468,13 @@ example :
     jointly satisfiable: the example instantiates it completely -/
 example :
     ∃ w wn, whModel .r2b .keep (1 : ℤ) 2 3 5 (some exTable) none 1 none exEvents = .ok w ∧
-      ndlModel Generated.pyMagic Generated.pyVersion ⟨.keep, .openmp, 1, 2⟩ (1 : ℤ) 2 3 5 none exEvents
+      ndlCall Generated.pyMagic Generated.pyVersion ⟨.keep, .openmp, 1, 2⟩ (1 : ℤ) 2 3 5 none exEvents
         = .ok (wn, exEvents.length) ∧
       (∀ o c dl, c ∈ exTable.names → dl ∈ exTable.dims → exTable.dims.idxOf dl = exSigma c →
         w.get o dl = wn.get o c) ∧
       (∀ o dl, (∀ e ∈ exEvents, ∀ c ∈ e.cues, exSigma c ≠ exTable.dims.idxOf dl) → w.get o dl = 0) :=
-  wh_r2b_onehot_eq_ndl ⟨.keep, .openmp, 1, 2⟩ (by decide) (by decide) 1 2 3 5 exTable exSigma 1 (by decide)
-    exEvents exEvents (by decide +kernel)
+  wh_r2b_onehot_eq_ndl ⟨.keep, .openmp, 1, 2⟩ 1 2 3 5 exTable exSigma 1 (by decide)
+    exEvents exEvents (by decide) (by decide +kernel) (by decide +kernel)
     ⟨by decide +kernel, by decide +kernel, by decide +kernel, by decide +kernel⟩
     onehot_table_example.1 (· ∈ exTable.names) (fun _ h => h) exSigma_inj exEvents_in_table
 
@@ -471,6 +483,42 @@ def exOutTable : VecTable ℤ := ⟨["y", "x"], ["e0", "e1", "e2"], #[1,0,0,  0,
 def exTau : String → Nat := fun s => if s = "x" then 2 else 0
 
 example : OneHotTable exOutTable exTau := by unfold OneHotTable; decide +kernel
+
+theorem exTau_inj : ∀ a b, a ∈ exOutTable.names → b ∈ exOutTable.names → exTau a = exTau b → a = b := by
+  have h : ∀ a ∈ exOutTable.names, ∀ b ∈ exOutTable.names, exTau a = exTau b → a = b := by decide +kernel
+  exact fun a b ha hb => h a ha b hb
+
+theorem exEvents_out_in_table : ∀ e ∈ exEvents, ∀ o ∈ e.outcomes, o ∈ exOutTable.names := by decide +kernel
+
+/-- the preconditions of `wh_b2r_onehot_eq_ndl` are jointly satisfiable: the
+    example instantiates it completely (threading, two outcomes per job) -/
+example :
+    ∃ w wn, whModel .b2r .keep (2 : ℤ) 2 3 5 none (some exOutTable) 1 none exEvents = .ok w ∧
+      ndlCall Generated.pyMagic Generated.pyVersion ⟨.keep, .threading, 2, 2⟩ (1 : ℤ) 2 2 1 none exEvents
+        = .ok (wn, exEvents.length) ∧
+      (∀ o c dl, o ∈ exOutTable.names → dl ∈ exOutTable.dims → exOutTable.dims.idxOf dl = exTau o →
+        w.get dl c = wn.get o c) ∧
+      (∀ dl c, (∀ e ∈ exEvents, ∀ o ∈ e.outcomes, exTau o ≠ exOutTable.dims.idxOf dl) → w.get dl c = 0) :=
+  wh_b2r_onehot_eq_ndl ⟨.keep, .threading, 2, 2⟩ 2 2 3 5 exOutTable exTau 1 (by decide)
+    exEvents exEvents (by decide) (by decide +kernel) (by decide +kernel)
+    ⟨by decide +kernel, by decide +kernel, by decide +kernel, by decide +kernel⟩
+    (by unfold OneHotTable; decide +kernel) (· ∈ exOutTable.names) (fun _ h => h) exTau_inj
+    exEvents_out_in_table (by decide +kernel)
+
+/-- … and so are those of `wh_r2r_onehot_eq_ndl` (both tables) -/
+example :
+    ∃ w wn, whModel .r2r .keep (2 : ℤ) 2 3 5 (some exTable) (some exOutTable) 1 none exEvents = .ok w ∧
+      ndlCall Generated.pyMagic Generated.pyVersion ⟨.keep, .openmp, 1, 2⟩ (1 : ℤ) 2 2 1 none exEvents
+        = .ok (wn, exEvents.length) ∧
+      (∀ o c dlo dlc, o ∈ exOutTable.names → c ∈ exTable.names → dlo ∈ exOutTable.dims →
+        exOutTable.dims.idxOf dlo = exTau o → dlc ∈ exTable.dims → exTable.dims.idxOf dlc = exSigma c →
+        w.get dlo dlc = wn.get o c) :=
+  wh_r2r_onehot_eq_ndl ⟨.keep, .openmp, 1, 2⟩ 2 2 3 5 exTable exOutTable exSigma exTau 1 (by decide)
+    exEvents exEvents (by decide) (by decide +kernel) (by decide +kernel)
+    ⟨by decide +kernel, by decide +kernel, by decide +kernel, by decide +kernel⟩
+    onehot_table_example.1 (by unfold OneHotTable; decide +kernel)
+    (· ∈ exTable.names) (· ∈ exOutTable.names) (fun _ h => h) (fun _ h => h) exSigma_inj exTau_inj
+    exEvents_in_table exEvents_out_in_table (by decide +kernel)
 
 /-- binary → real and real → real on the example (η = 1 over ℤ would be
     degenerate; η = 2): the Widrow–Hoff rows at `τ x = 2`, `τ y = 0` are the
